@@ -6,6 +6,7 @@ import (
 	"fmt"
 	"time"
 
+	"github.com/thushan/olla/internal/config"
 	"github.com/thushan/olla/internal/verif/h/lib/report"
 	"github.com/thushan/olla/internal/verif/h/lib/stack"
 )
@@ -68,7 +69,19 @@ func e4deployment(own, other string, first, owner map[string]string, ps []prof, 
 		}
 	}()
 	engine := []string{"sherpa", "olla"}[idx%2]
-	o, err := stack.Boot(stack.Opts{Engine: engine, Balancer: "priority", Endpoints: eps, ModelDiscovery: true, CheckInterval: time.Hour})
+	// the model-routing strategy is configuration too: the shipped default, and the strategies that fall back to "all"
+	// endpoints when nobody lists the model - "all" must still mean all candidates of this request
+	type routing struct {
+		name, typ, fallback string
+		refresh             bool
+	}
+	rg := []routing{{name: "default"}, {"optimistic/all", "optimistic", "all", false}, {"discovery/all+refresh", "discovery", "all", true}, {"discovery/all", "discovery", "all", false}, {"optimistic/compatible_only", "optimistic", "compatible_only", false}}[(idx/2)%5]
+	o, err := stack.Boot(stack.Opts{Engine: engine, Balancer: "priority", Endpoints: eps, ModelDiscovery: true, CheckInterval: time.Hour, Mutate: func(c *config.Config) {
+		if rg.name != "default" {
+			c.ModelRegistry.RoutingStrategy = config.ModelRoutingStrategy{Type: rg.typ, Options: config.ModelRoutingStrategyOptions{FallbackBehavior: rg.fallback,
+				DiscoveryRefreshOnMiss: rg.refresh, DiscoveryTimeout: time.Second}}
+		}
+	}})
 	if err != nil {
 		res.Break("E4 boot: %v", err)
 		return
@@ -104,7 +117,7 @@ func e4deployment(own, other string, first, owner map[string]string, ps []prof, 
 				}
 				if r.scope != "proxy" && !compatible(owner[r.prefix], types[i], ps) {
 					res.Violate("served-by-foreign-provider", map[string]any{"part": "E4", "prefix_owner": ownClass(owner[r.prefix])},
-						fmt.Sprintf("deployment [%s, %s] engine=%s, history %s: the request reached the %s endpoint; client: %s", own, other, engine, hist, types[i], resp),
+						fmt.Sprintf("deployment [%s, %s] engine=%s model routing %s, history %s: the request reached the %s endpoint; client: %s", own, other, engine, rg.name, hist, types[i], resp),
 						map[string]any{"engine": "stack", "part": "E4", "deployment": types, "history": hist})
 				}
 			}
@@ -133,7 +146,7 @@ func e4deployment(own, other string, first, owner map[string]string, ps []prof, 
 			}{{r1, o1, "first"}, {r2, o2, "second"}} {
 				if x.got != alone[x.r] {
 					res.Violate("answer-depends-on-earlier-requests", map[string]any{"part": "E4", "scope": x.r.scope},
-						fmt.Sprintf("deployment [%s (priority 200), %s (100)] engine=%s, history %s: the %s request got status %d from endpoint %d; asked alone it got status %d from endpoint %d (-1: no endpoint)",
+						fmt.Sprintf("deployment [%s (priority 200), %s (100)] engine=%s model routing "+rg.name+", history %s: the %s request got status %d from endpoint %d; asked alone it got status %d from endpoint %d (-1: no endpoint)",
 							own, other, engine, hist, x.what, x.got.status, x.got.served, alone[x.r].status, alone[x.r].served),
 						map[string]any{"engine": "stack", "part": "E4", "deployment": types, "history": hist})
 				}
@@ -145,6 +158,6 @@ func e4deployment(own, other string, first, owner map[string]string, ps []prof, 
 		outs[r.scope+"|"+r.model] = fmt.Sprintf("status %d endpoint %d", o.status, o.served)
 	}
 	if own == "ollama" && other == "vllm" {
-		res.Info["E4_example"] = map[string]any{"deployment": types, "engine": engine, "asked_alone(scope|model)": outs}
+		res.Info["E4_example"] = map[string]any{"deployment": types, "engine": engine, "model_routing": rg.name, "asked_alone(scope|model)": outs}
 	}
 }
